@@ -116,7 +116,16 @@ func runC16(a *A) {
 					}
 					written[constant.StringVal(k.Value)] = true
 				} else {
-					written["<dynamic:"+TermOf(l, nil).String()+">"] = true
+					// a computed kind (the upper-cased keyword itself): the literals it was found equal to on the
+					// paths that store it
+					vals, closed := stringValuesOnPaths(pj, st, l)
+					if closed {
+						for _, v := range vals {
+							written[v] = true
+						}
+					} else {
+						written["<dynamic:"+TermOf(l, nil).String()+">"] = true
+					}
 				}
 			}
 		}
@@ -343,11 +352,29 @@ func (a *A) ruleAliasDefaultBeforeUse() {
 	aliasF, tableF := a.FieldOf(jcT, "Alias"), a.FieldOf(jcT, "Table")
 	// the defaulting store: jc.Alias = jc.Table
 	var def *ssa.Store
+	defAfterMerge := false
 	for _, st := range storesToField(fn, aliasF) {
 		if t := TermOf(st.Val, nil); t.Kind == "field" && t.Field == tableF {
 			def = st
 		}
-		// or the table token's value stored into both
+		// or the alias settled in a local first (`if alias == "" { alias = jc.Table }; jc.Alias = alias`): one store
+		// of a value that is the table name on the way that found no alias
+		if _, isPhi := st.Val.(*ssa.Phi); isPhi && def == nil {
+			// (the table name itself, or the very value that is stored as the table name of the same config)
+			tableVal := ""
+			if fa, ok := st.Addr.(*ssa.FieldAddr); ok {
+				for _, ts := range storesToField(fn, tableF) {
+					if tfa, ok := ts.Addr.(*ssa.FieldAddr); ok && tfa.X == fa.X {
+						tableVal = TermOf(ts.Val, nil).String()
+					}
+				}
+			}
+			for _, l := range phiLeaves(st.Val) {
+				if t := TermOf(l, nil); (t.Kind == "field" && t.Field == tableF) || (tableVal != "" && t.String() == tableVal) {
+					def, defAfterMerge = st, true
+				}
+			}
+		}
 	}
 	construct := fname(fn) + "#alias-default-before-use"
 	if def == nil {
@@ -383,7 +410,12 @@ func (a *A) ruleAliasDefaultBeforeUse() {
 			}
 			if use {
 				n++
-				if !(merge.Dominates(c.Block()) || merge == c.Block()) {
+				if defAfterMerge {
+					if !dominatesInstr(def, c) {
+						okAll = false
+						badPos = c.Pos()
+					}
+				} else if !(merge.Dominates(c.Block()) || merge == c.Block()) {
 					// path form: is the use reachable without the alias having been settled - i.e. without
 					// passing the `Alias == ""` test that guards the default (either arm settles it)? Paths
 					// that fail with an error before the test return before the use.
@@ -899,4 +931,53 @@ func (a *A) ruleNullKeyNeverLookedUp() int {
 		a.anchorFail("no TableSource.Lookup call found in enrichJoin or its helpers")
 	}
 	return n
+}
+
+
+// stringValuesOnPaths: the string literals value leaf was found equal to (`leaf == "LEFT"` true, or `leaf != "LEFT"`
+// false) on the feasible paths from fn's entry to the store st on which st stores leaf; closed reports that every
+// such path had decided one.
+func stringValuesOnPaths(fn *ssa.Function, st *ssa.Store, leaf ssa.Value) (vals []string, closed bool) {
+	type cmp struct {
+		bo *ssa.BinOp
+		k  string
+	}
+	var cmps []cmp
+	allInstrs(fn, func(in ssa.Instruction) {
+		bo, ok := in.(*ssa.BinOp)
+		if !ok || (bo.Op != token.EQL && bo.Op != token.NEQ) || bo.X != leaf {
+			return
+		}
+		if k, ok := bo.Y.(*ssa.Const); ok && k.Value != nil && k.Value.Kind() == constant.String {
+			cmps = append(cmps, cmp{bo, constant.StringVal(k.Value)})
+		}
+	})
+	if len(cmps) == 0 {
+		return nil, false
+	}
+	seen := map[string]bool{}
+	closed = true
+	hits := 0
+	over := explorePaths(fn, st, func(ssa.Value) Tri { return U }, func(ssa.Instruction) bool { return false }, func(resolve func(ssa.Value) ssa.Value) {
+		if resolve(st.Val) != leaf && st.Val != leaf {
+			return
+		}
+		hits++
+		found := false
+		for _, c := range cmps {
+			if k, ok := resolve(c.bo).(*ssa.Const); ok && k.Value != nil && k.Value.Kind() == constant.Bool {
+				if constant.BoolVal(k.Value) == (c.bo.Op == token.EQL) {
+					seen[c.k] = true
+					found = true
+				}
+			}
+		}
+		if !found {
+			closed = false
+		}
+	})
+	if over || hits == 0 {
+		return nil, false
+	}
+	return sortedKeys(seen), closed
 }
